@@ -181,7 +181,7 @@ def predict(T, v, codec, flags, defMode=True, chunk=0):
     return EmuEncoder(pol, set(flags), codec).enc(T, v)
 
 
-def classify(T, v, codec, observed, defMode=True, chunk=0):
+def classify(T, v, codec, observed, defMode=True, chunk=0, ALL=ALL):
     """-> set of 'kf:Kn' features explaining `observed`, empty when unexplained"""
     try:
         full = predict(T, v, codec, ALL, defMode, chunk)
